@@ -287,7 +287,7 @@ def run(ctx):
     tasks = []
     for n in names:
         items = [a for _, a in plan(n, ctx.tier)]
-        items = sweep.thin(items, (15 if n in sweep.SLOW else 5) if ctx.quick else 2)
+        items = sweep.thin(items, (15 if n in sweep.SLOW else 5) if ctx.quick else (9 if n in sweep.SLOW else 3))
         for ch in gen.chunks(items, 8 if n in sweep.SLOW else 4):
             if ch:
                 tasks.append((n, ch, ctx.tier))
@@ -298,7 +298,7 @@ def run(ctx):
     cov = dict(
         states=sum(r['states'] for r in res), transitions=sum(r['steps'] for r in res), traces_validated_against_impl=execs,
         evaluations=execs, distinct_nontrivial=sum(1 for r in res for _ in range(r['execs'])),
-        rule=('executions of the C01 plan (every ' + ('5th' if ctx.quick else '2nd') + ' argument) in step mode with the shadow monitor: default schedule, '
+        rule=('executions of the C01 plan (every ' + ('5th' if ctx.quick else '3rd') + ' argument) in step mode with the shadow monitor: default schedule, '
               '1 deviation, the 3 non-default option combinations, model building on, and a 2-step cut; a state is a prefix of a step history '
               '(after trunk, after every step, after finish), each compared with the event-fed shadow model'),
         executions=execs, steps_monitored=sum(r['steps'] for r in res), step_cap=STEP_CAP[ctx.tier], logics=len(names),
